@@ -221,6 +221,24 @@ impl<'a> Substitutions<'a> {
                     acc
                 });
 
+        // NOTE: A param that is mapped to itself is also a value of the params mapped to it
+        // i.e. for (`T` => `T`, `U` => `T`) type `T` can be replaced with either `T` or `U`
+        let mut reverse_map = reverse_map;
+        for (value, sources) in &mut reverse_map {
+            let path = match value {
+                SubstitutionValue::Type(syn::Type::Path(ty)) if ty.qself.is_none() => &ty.path,
+                SubstitutionValue::Expr(syn::Expr::Path(expr)) if expr.qself.is_none() => &expr.path,
+                _ => continue,
+            };
+
+            if let Some((&source, _)) = matches_param_ident(path)
+                .and_then(|ident| self.0.get_key_value(ident))
+                .filter(|&(_, &dst)| dst == SubstitutionValue::Identity)
+            {
+                sources.push(source);
+            }
+        }
+
         // TODO: assert that there are no multiple `T` -> `fn(T)` reverse mappings
 
         let bounded = trait_bound
